@@ -538,7 +538,7 @@ func runHandler(t *testing.T, name string, n hx.N) {
 				case 1:
 					payload = good[:rapid.IntRange(1, len(good)-1).Draw(t, "cut")]
 				case 2:
-					payload = append(append([]byte{}, good...), []byte("garbage")...)
+					payload = append(append([]byte{}, good...), []byte(rapid.SampledFrom([]string{"garbage", "]", "}", "}]", "\n}", " ]", ",", "[]", "null", "0"}).Draw(t, "trailing"))...)
 				case 3:
 					payload = []byte(`{"resource":"a"}`)
 				case 4:
